@@ -126,3 +126,16 @@ Fixpoint polls (c : cfg) (F : nat) (x : sim) (rs : list round) : sim * pres :=
 
 Definition f21_after (fix21 : bool) : sim * pres :=
   polls (std_cfg 32768 H1_LW_BUFFER_SIZE 123 fix21) 200 (sim_init f21_items f21_handlers) f21_rounds.
+
+(* ---- a paused request payload dropped by the handler (second stall of the same kind) -------- *)
+(* 400 000 body bytes behind a handler that waits, then drops the payload unread and answers;
+   a second request behind it.  Poll 1 fills the channel beyond its limit (Paused); poll 2 reads
+   read_buf full again and cannot decode; poll 3: the handler drops the payload and answers. *)
+Definition f28_items : list item := [IReq 47 (Some 400000); IReq 18 None].
+Definition f28_handlers : list (list hact) := [[HWait; HDrop; HRespond 56 None]; [HRespond 56 None]].
+Definition f28_rounds : list round :=
+  [mk_round 400065 false [WAccept 100000] [] false;
+   mk_round 0 false [WAccept 100000] [] false;
+   mk_round 0 false [WAccept 100000] [] true].
+Definition f28_after (fix28 : bool) : sim * pres :=
+  polls (std_cfg2 32768 H1_LW_BUFFER_SIZE 123 true fix28) 50 (sim_init f28_items f28_handlers) f28_rounds.
